@@ -67,10 +67,10 @@ def main():
                 missing = [l.split("NOT PASSING:")[1].strip() for l in out.splitlines() if "NOT PASSING:" in l]
                 ok = bool(missing) and len(missing) <= 3
                 for t in missing if ok else []:
-                    name = t.split("::")[-1]
+                    tname = t.split("::")[-1]
                     good = False
                     for _ in range(2):
-                        rc2, out2 = sh("cargo nextest run --workspace --offline %s" % name, cwd=wt, env=env)
+                        rc2, out2 = sh("cargo nextest run --workspace --offline %s" % tname, cwd=wt, env=env)
                         if rc2 == 0 and "1 passed" in out2:
                             good = True
                             break
